@@ -8,41 +8,65 @@ open DL.RxSpec
 attribute [local irreducible] isScalar
 variable {src : List Nat} {K : Bool × Nat}
 
+theorem ne_of_head_ne' {x y : Nat} {m : List Nat} (h : (x :: m).head? ≠ some y) : x ≠ y := by
+  intro he; exact h (by rw [he]; rfl)
+
 theorem eatControlEscape_wb (r : List Nat) (s : St) (h : BAt src K r s) :
     Wp (eatControlEscape s) (fun b s1 => Keep s s1 ∧
       if b = true then ∃ r1 v, BAt src K r1 s1 ∧ RxSpecB.CharacterEscape K.1 r r1 v ∧ s1.lastIntValue = (v : Nat)
-      else BAt src K r s1) := by
+      else BAt src K r s1 ∧ ∀ x, r.head? = some x → x ∉ [c 'f', c 'n', c 'r', c 't', c 'v']) := by
   unfold eatControlEscape
   rx6_auto
-  all_goals (try rx6_false)
-  all_goals rx6_true
-  · exact ⟨_, 12, by rx6_at, RxSpecB.CharacterEscape.f _, rfl⟩
-  · exact ⟨_, 10, by rx6_at, RxSpecB.CharacterEscape.n _, rfl⟩
-  · exact ⟨_, 13, by rx6_at, RxSpecB.CharacterEscape.r _, rfl⟩
-  · exact ⟨_, 9, by rx6_at, RxSpecB.CharacterEscape.t _, rfl⟩
-  · exact ⟨_, 11, by rx6_at, RxSpecB.CharacterEscape.v _, rfl⟩
+  · rx6_true; exact ⟨_, 12, by rx6_at, RxSpecB.CharacterEscape.f _, rfl⟩
+  · rx6_true; exact ⟨_, 10, by rx6_at, RxSpecB.CharacterEscape.n _, rfl⟩
+  · rx6_true; exact ⟨_, 13, by rx6_at, RxSpecB.CharacterEscape.r _, rfl⟩
+  · rx6_true; exact ⟨_, 9, by rx6_at, RxSpecB.CharacterEscape.t _, rfl⟩
+  · rx6_true; exact ⟨_, 11, by rx6_at, RxSpecB.CharacterEscape.v _, rfl⟩
+  · rx6_falsen
+    rename_i h1 h2 h3 h4 h5
+    intro x hx
+    cases r with
+    | nil => cases hx
+    | cons y m =>
+      cases hx
+      simp only [List.mem_cons, List.not_mem_nil, or_false, not_or]
+      exact ⟨ne_of_head_ne' h1, ne_of_head_ne' h2, ne_of_head_ne' h3, ne_of_head_ne' h4, ne_of_head_ne' h5⟩
 
 theorem eatControlLetter_wb (r : List Nat) (s : St) (h : BAt src K r s) :
     Wp (eatControlLetter s) (fun b s1 => Keep s s1 ∧
       if b = true then ∃ l r1, r = l :: r1 ∧ ControlLetter l ∧ BAt src K r1 s1 ∧ s1.lastIntValue = ((l % 32 : Nat) : Int)
-      else BAt src K r s1) := by
+      else BAt src K r s1 ∧ ∀ l, r.head? = some l → ¬ControlLetter l) := by
   unfold eatControlLetter
   rx6_auto
-  all_goals (try rx6_false)
-  rename_i l r1 hc hat
-  rx6_true
-  exact ⟨l, r1, rfl, controlLetter_of_isAsciiAlphabetic hc, by rx6_at, by st_norm; omega⟩
+  · rx6_falsen
+    rename_i l r1 hn
+    intro x hx hl
+    cases hx
+    exact hn (isAsciiAlphabetic_of_controlLetter hl)
+  · rename_i l r1 hc hat
+    rx6_true
+    exact ⟨l, r1, rfl, controlLetter_of_isAsciiAlphabetic hc, by rx6_at, by st_norm; omega⟩
+  · rx6_falsen
+    exact fun l hl => nomatch hl
 
 theorem eatCControlLetter_wb (r : List Nat) (s : St) (h : BAt src K r s) :
     Wp (eatCControlLetter s) (fun b s1 => Keep s s1 ∧
       if b = true then ∃ r1 v, BAt src K r1 s1 ∧ RxSpecB.CharacterEscape K.1 r r1 v ∧ s1.lastIntValue = (v : Nat)
-      else BAt src K r s1) := by
+      else BAt src K r s1 ∧ ¬∃ l r', r = c 'c' :: l :: r' ∧ ControlLetter l) := by
   unfold eatCControlLetter
   rx6_auto
-  all_goals (try rx6_false)
-  rename_i m hat0 s1 hk l r1 hm hl hat1 hv
-  rx6_true
-  exact ⟨r1, l % 32, hat1, by rw [hm]; exact RxSpecB.CharacterEscape.controlLetter l r1 hl, hv⟩
+  · rx6_falsen
+    rename_i m _ _ _ _ hno _
+    rintro ⟨l, r', e, hl⟩
+    have e' : m = l :: r' := (List.cons.inj e).2
+    exact hno l (by rw [e']; rfl) hl
+  · rename_i m hat0 s1 hk l r1 hm hl hat1 hv
+    rx6_true
+    exact ⟨r1, l % 32, hat1, by rw [hm]; exact RxSpecB.CharacterEscape.controlLetter l r1 hl, hv⟩
+  · rx6_falsen
+    rename_i hne
+    rintro ⟨l, r', e, _⟩
+    exact hne (by rw [e]; rfl)
 
 theorem eatZero_wb (r : List Nat) (s : St) (h : BAt src K r s) :
     Wp (eatZero s) (fun b s1 => Keep s s1 ∧
@@ -67,35 +91,64 @@ theorem eatZero_wb (r : List Nat) (s : St) (h : BAt src K r s) :
 theorem eatHexEscapeSequence_wb (r : List Nat) (s : St) (h : BAt src K r s) :
     Wp (eatHexEscapeSequence s) (fun b s1 => Keep s s1 ∧
       if b = true then ∃ r1 v, BAt src K r1 s1 ∧ RxSpecB.CharacterEscape K.1 r r1 v ∧ s1.lastIntValue = (v : Nat)
-      else BAt src K r s1) := by
+      else BAt src K r s1 ∧ ¬∃ a b r', r = c 'x' :: a :: b :: r' ∧ HexDigit a ∧ HexDigit b) := by
   unfold eatHexEscapeSequence
   rx6_auto
-  all_goals (try rx6_false)
-  rename_i m hat0 s1 hk ds r1 hm hlen hds hat1 hv
-  rx6_true
-  rcases ds with _ | ⟨a, _ | ⟨b, _ | ⟨e, t⟩⟩⟩ <;> simp at hlen
-  refine ⟨r1, mvHex [a, b], hat1, ?_, hv⟩
-  rw [hm]
-  exact RxSpecB.CharacterEscape.hex a b r1 (hds a (by simp)) (hds b (by simp))
+  · rx6_falsen
+    rename_i m _ _ _ _ hno _
+    rintro ⟨a, b, r', e, ha, hb⟩
+    have e' : m = a :: b :: r' := (List.cons.inj e).2
+    refine hno ⟨[a, b], r', e', rfl, ?_⟩
+    intro d hd
+    simp only [List.mem_cons, List.not_mem_nil, or_false] at hd
+    rcases hd with rfl | rfl <;> assumption
+  · rename_i m hat0 s1 hk ds r1 hm hlen hds hat1 hv
+    rx6_true
+    rcases ds with _ | ⟨a, _ | ⟨b, _ | ⟨e, t⟩⟩⟩ <;> simp at hlen
+    refine ⟨r1, mvHex [a, b], hat1, ?_, hv⟩
+    rw [hm]
+    exact RxSpecB.CharacterEscape.hex a b r1 (hds a (by simp)) (hds b (by simp))
+  · rx6_falsen
+    rename_i hne
+    rintro ⟨a, b, r', e, _⟩
+    exact hne (by rw [e]; rfl)
 
 theorem BAt.mem_src {r : List Nat} {s : St} (h : BAt src K r s) {x : Nat} (hx : x ∈ r) : x ∈ src := by
   rw [← h.rest] at hx
   exact List.mem_of_mem_drop hx
 
+/-- `eat_identity_escape` alone: any unit other than `c` (and `k` with named groups) -/
 theorem eatIdentityEscape_wb (hsrc : ∀ x ∈ src, x ≤ 0xFFFF) (r : List Nat) (s : St) (h : BAt src K r s) :
     Wp (eatIdentityEscape s) (fun b s1 => Keep s s1 ∧
-      if b = true then ∃ r1 v, BAt src K r1 s1 ∧ RxSpecB.CharacterEscape K.1 r r1 v ∧ s1.lastIntValue = (v : Nat)
-      else BAt src K r s1) := by
+      if b = true then ∃ x r1, r = x :: r1 ∧ RxSpecB.SourceCharacter x ∧ x ≠ c 'c' ∧ (K.1 = true → x ≠ c 'k') ∧
+        BAt src K r1 s1 ∧ s1.lastIntValue = (x : Nat)
+      else BAt src K r s1 ∧ ∀ x, r.head? = some x → x = c 'c' ∨ (K.1 = true ∧ x = c 'k')) := by
   unfold eatIdentityEscape isValidIdentityEscape
   rx6_auto
-  all_goals (try rx6_false)
+  · rx6_falsen
+    rename_i x r1 hn hc
+    intro y hy; cases hy
+    exact .inl (by simpa using hc)
   · rename_i x r1 hn hc hat
     rx6_true
-    refine ⟨r1, x, by rx6_at, RxSpecB.CharacterEscape.identity x r1 (hsrc x (h.mem_src (by simp))) (by simpa using hc)
-      (fun hk => absurd (h.nFlag'.trans hk) hn), rfl⟩
+    exact ⟨x, r1, rfl, hsrc x (h.mem_src (by simp)), by simpa using hc, fun hk => absurd (h.nFlag'.trans hk) hn,
+      by rx6_at, rfl⟩
+  · rx6_falsen
+    rename_i x r1 hnf hc
+    intro y hy; cases hy
+    have hc0 : ¬x = ch 'c' → x = ch 'k' := by simpa using hc
+    have hc' : x = ch 'c' ∨ x = ch 'k' := by
+      by_cases e : x = ch 'c'
+      · exact .inl e
+      · exact .inr (hc0 e)
+    rcases hc' with e | e
+    · exact .inl e
+    · exact .inr ⟨h.nFlag'.symm.trans hnf, e⟩
   · rename_i x r1 hnf hc hat
     rx6_true
     have hc' : x ≠ ch 'c' ∧ x ≠ ch 'k' := by simpa using hc
-    exact ⟨r1, x, by rx6_at, RxSpecB.CharacterEscape.identity x r1 (hsrc x (h.mem_src (by simp))) hc'.1 (fun _ => hc'.2), rfl⟩
+    exact ⟨x, r1, rfl, hsrc x (h.mem_src (by simp)), hc'.1, fun _ => hc'.2, by rx6_at, rfl⟩
+  · rx6_falsen
+    exact fun x hx => nomatch hx
 
 end DL.Rx
